@@ -74,6 +74,9 @@ func cmdEngine(args []string) int {
 		return 2
 	}
 	res := engOutput{}
+	if input.Profile.NoFinalRestarts {
+		*extraRestarts = 0
+	}
 	for _, b := range input.Behaviours {
 		runBehaviour(input.Profile, b, *extraRestarts, &res)
 	}
